@@ -964,6 +964,12 @@ class C11(Prop):
         for t in (b"http://[::FFFF:1.2.3.4]/", b"/%", b"/%4", b"/%/x"):
             s = b"GET " + t + b" HTTP/1.1\r\n\r\n"
             ctx.add("rtreq", ["d", "d", "d", hx(s)], stream=s)
+        # the witnesses of known finding K6, every run: a 1000-byte header line without whitespace (re-serialised
+        # with a space after the colon it no longer fits and cannot be folded); a value whose last place to split
+        # is a tab
+        for s in (b"GET / HTTP/1.1\r\nX:" + b"v" * 996 + b"\r\n\r\n",
+                  b"GET / HTTP/1.1\r\nX: " + b"a" * 500 + b"\r\n " + b"b" * 400 + b"\t" + b"c" * 200 + b"\r\n\r\n"):
+            ctx.add("rtreq", ["d", "d", "d", hx(s)], stream=s)
         def sched(s):
             # how the first parse receives the input: one call, or deliveries (often many small ones, so that
             # bodies and chunked bodies arrive in three and more pieces)
@@ -987,19 +993,21 @@ class C11(Prop):
             canon = impl[cid][0]
             if not canon.startswith("first="):
                 continue
+            needs_fold = False
+            if m["kind"] == "rtreq":
+                # does a re-serialised header line (`name: value`) exceed the line limit minus 2, so that generate()
+                # has to fold it?  (known finding K6: folding fails when the value offers no place to split, and a
+                # fold at a tab is read back as a space)
+                lim = {"d": 1000, "-": None}.get(m["args"][1], None if not m["args"][1].isdigit() else int(m["args"][1]))
+                hf = fields_of(canon[len("first="):].split(";gen", 1)[0]).get("h", "-")
+                if lim is not None and hf not in ("-", ""):
+                    needs_fold = any(len(nv.split(":")[0]) // 2 + 2 + len(nv.split(":")[1]) // 2 + 2 > lim for nv in hf.split(","))
+            m["needs_fold"] = needs_fold
             if ";generr:" in canon:
-                continue        # needs folding / does not fit the line limit: excluded by the statement
+                yield [cid], f"an accepted message cannot be re-serialised: generate() fails ({canon.split(';generr:', 1)[1][:60]})"
+                continue
             first, rest = canon[len("first="):].split(";gen=", 1)
             gen, back = rest.split(";back=", 1)
-            if m["kind"] == "rtreq":
-                # the statement quantifies over inputs whose re-serialised header lines fit the line limit
-                # without folding: a parsed value longer than the limit (an unfolded continuation) is folded
-                # by generate(), and folding at a tab or a run of spaces is not undone by unfolding
-                lim = {"d": 1000, "-": None}.get(m["args"][1], None if not m["args"][1].isdigit() else int(m["args"][1]))
-                hf = fields_of(first).get("h", "-")
-                if lim is not None and hf not in ("-", ""):
-                    if any(len(nv.split(":")[0]) // 2 + 2 + len(nv.split(":")[1]) // 2 + 2 > lim for nv in hf.split(",")):
-                        continue
             if not back.startswith(f"C{len(gen) // 2};"):
                 yield [cid], f"re-serialised message is not accepted whole: {back[:120]}"
                 continue
@@ -1007,6 +1015,8 @@ class C11(Prop):
             if ";x=" in first:
                 first, bf = first.rsplit(";x=", 1)[0], bf.rsplit(";x=", 1)[0]
             if bf != first:
+                fa, fb = fields_of(first), fields_of(bf)
+                m["only_headers_differ"] = all(fa.get(k) == fb.get(k) for k in set(fa) | set(fb) if k != "h")
                 yield [cid], f"re-parsed message differs: {first[:150]} vs {bf[:150]}"
 
     def known(self, ctx, cid, msg):
@@ -1017,6 +1027,9 @@ class C11(Prop):
                 return "K2"
             if is_k3_target(line[1]):
                 return "K3"
+        if ctx.meta[cid].get("needs_fold") and (msg.startswith("an accepted message cannot be re-serialised: generate() fails (Headers.CouldNotBeFolded")
+                                               or (msg.startswith("re-parsed message differs") and ctx.meta[cid].get("only_headers_differ"))):
+            return "K6"
         return None
 
 
